@@ -9,6 +9,7 @@ import (
 	"bufio"
 	"flag"
 	"fmt"
+	"runtime"
 	"sync"
 	"sync/atomic"
 	"time"
@@ -25,6 +26,9 @@ func concResize(args []string, out *bufio.Writer) {
 	for i := *from; i < *from+*n; i++ {
 		r := &rng{s: scriptSeed(*seed, "concresize", i)}
 		fmt.Fprintf(out, "script concresize-%d-%d\n", *seed, i)
+		// the parallel table copy splits the buckets over min(tableLen/64, GOMAXPROCS) goroutines: also run with processor
+		// counts that do not divide the table length
+		prevProcs := runtime.GOMAXPROCS(pick(r, []int{3, 5, 6, 7, 12, 16, 16}))
 		c := otter.Must(&otter.Options[int, int]{})
 		present := map[int]int{}
 		// table sizes on both sides of the parallel-copy threshold (128 buckets ~ 480 entries)
@@ -156,5 +160,6 @@ func concResize(args []string, out *bufio.Writer) {
 			fmt.Fprintf(out, "table round=%d grow=%v size=%d want=%d all=%d wrong=%d missing=%d\n", round, grow, c.EstimatedSize(), len(present), cnt, bad, missing)
 		}
 		c.StopAllGoroutines()
+		runtime.GOMAXPROCS(prevProcs)
 	}
 }
